@@ -125,11 +125,12 @@ def _native_sync(d):
     raise ValueError("cannot rebuild sync %r" % (d,))
 
 
-def install_loggers(api, current, stubs=()):
+def install_loggers(api, current, stubs=(), choices=()):
     """natively, the ghost event log is filled by wrappers around the real functions whose contracts
     declare `log_entry` (the function under replay itself is not wrapped)"""
     from pyvc import spec
     spec._GHOST["log"] = []
+    spec._GHOST["choices"] = list(choices)
     pending = [list(x) for x in stubs]
     for c in api.REGISTRY:
         if current.prop != c.prop and current.prop not in c.also:
@@ -214,7 +215,7 @@ def main():
             val = build(v)
             setattr(owner, attr, val)
             ns["state_" + attr] = val
-        install_loggers(api, c, w.get("stubs", ()))
+        install_loggers(api, c, w.get("stubs", ()), w.get("choices", ()))
         if c.setup_spec is not None:
             call_spec(c.setup_spec, ns)
         if getattr(c, "snapshot_spec", None) is not None:
